@@ -67,6 +67,32 @@ def one_op_positions(e, name):
     return out
 
 
+# statement contexts: every place a statement can stand in (S is a complete statement)
+CONTEXTS = [
+    ("plain", "%s"),
+    ("seq", "r = 1; %s r += 2;"),
+    ("block", "{ %s }"),
+    ("block2", "{ { r = 1; %s } r += 2; }"),
+    ("then", "if (c) { %s }"),
+    ("then-nobrace", "if (c) %s"),
+    ("else", "if (c) { r = 4; } else { %s }"),
+    ("else-nobrace", "if (c) r = 4; else %s"),
+    ("then-mid", "if (c) { r = 1; %s r += 2; } else { r = 9; }"),
+    ("else-mid", "if (c) { r = 1; } else { r = 2; %s r += 3; }"),
+    ("elseif", "if (c) { r = 4; } else if (a & 1) { %s } else { r = 6; }"),
+    ("elseif-else", "if (c) { r = 4; } else if (a & 1) { r = 5; } else { %s }"),
+    ("nested-then", "if (c) { if (a & 1) { %s } }"),
+    ("nested-else", "if (c) { if (a & 1) { r = 1; } else { %s } } else { r = 3; }"),
+    ("else-nested-then", "if (c) { r = 1; } else { if (a & 1) { %s } r += 3; }"),
+    ("loop", "for (i = 0; i < (c & 3); i++) { %s }"),
+    ("loop-then", "for (i = 0; i < (c & 3); i++) { if (i & 1) { %s } else { r += 1; } }"),
+    ("loop-else", "for (i = 0; i < (c & 3); i++) { if (i & 1) { r += 1; } else { %s } }"),
+    ("then-loop", "if (c & 4) { for (i = 0; i < (c & 3); i++) { %s } } else { r = 7; }"),
+    ("else-loop", "if (c & 4) { r = 7; } else { for (i = 0; i < (c & 3); i++) { %s } }"),
+]
+STMT_FORMS = [("unused", "%s;"), ("assign", "r = %s;"), ("acc", "r += %s;")]
+
+
 def two_op_statements(e1, e2):
     return [
         ("2:sum", "r = %s + %s;" % (e1, e2)),
@@ -103,6 +129,14 @@ def space(tier):
         for pos, st in [("stmt", "%s;" % e), ("ifarm", "if (c) { %s; }" % e), ("elsearm", "if (c) { r = 1; } else { %s; }" % e), ("loop", "for (i = 0; i < (c & 3); i++) { %s; v++; }" % e), ("seq", "v = v + 1; %s; v = v + 1;" % e),
                         ("gcc-arm", "r = c ? ({ %s; 5; }) : 6;" % e), ("gcc-arm2", "r = c ? 6 : ({ %s; v; });" % e), ("gcc", "r = ({ %s; v + 1; });" % e)]:
             out.append(mk(st, (name, pos)))
+    ctx_ops = ["inc", "call", "gcc", "incw"] if tier == "quick" else list(OPS)
+    for name in ctx_ops:
+        for fn, form in STMT_FORMS:
+            for cn, cx in CONTEXTS:
+                out.append(mk(cx % (form % OPS[name]), (name, "ctx", fn, cn)))
+    for name, e in VOID_OPS.items():
+        for cn, cx in CONTEXTS:
+            out.append(mk(cx % ("%s;" % e), (name, "ctx", "void", cn)))
     names = list(OPS)
     pairs = [(x, y) for x in names for y in names]
     if tier == "quick":
